@@ -59,6 +59,8 @@ def run(ctx, prog):
             f = prog.find_method(B, name)
             ctx.require(len(f) == 1, '%s::%s not found' % (B, name))
             E = terms.Evaluator(prog, scalar=scalar, noreturn=('masa_exit',), opaque=('return_name',))
+            E.unroll_paths = True                       # helpers with several returns continue the caller once per path
+            E.assume_nonnull = ('vararr', 'vecarr')     # registered addresses are member addresses (S2b, C12.H3)
             outs = E.run(f[0])
             return f[0], outs, E
         # ---- S1 scalars: every path is classified by what its condition says about the name being registered
@@ -147,28 +149,41 @@ def run(ctx, prog):
             ok, why = False, 'output vector is not assigned as a whole (length changes would be lost)'
         ctx.ob('C11.S1', 'get_vec|' + sc, ok, f.where, 'get_vec: ' + why, sample='get_vec: vec = *vecarr[it->second]')
 
-        # ---- S2b registration bookkeeping
+        # ---- S2b registration bookkeeping (per path; the success path is the one that returns 0)
         for fn_name, cnt, mp, arr in (('register_var', 'num_vars', 'varmap', 'vararr'), ('register_vec', 'num_vec', 'vecmap', 'vecarr')):
             f, outs, E = paths(fn_name)
-            key = f.params[0]['n']
+            key = ('sym', f.params[0]['n'])
             okp = [o for o in outs if o.ret == terms.num(0)]
             ok, why = len(okp) == 1, 'no unique success path'
             if ok:
                 o = okp[0]
-                w = [e for e in o.events if e[0] == 'write']
-                order = [e[1] for e in w]
-                if order[:2] != [cnt, mp] or arr not in order:
-                    ok, why = False, 'success path writes %s; expected %s++, %s[name]=%s, %s.push_back(address)' % (order, cnt, mp, cnt, arr)
+                cv = o.mem.get(cnt)
+                newcnt = ('add', (('sym', cnt), terms.num(1)))
+                pushes = [c for c in E.trace.obj_calls if c[0] == arr and c[1] == 'push_back']
+                want = ('sym', f.params[1]['n'])
+                if cv != newcnt:
+                    ok, why = False, '%s is not incremented by exactly one on the success path (becomes %s)' % (cnt, terms.fmt(cv)[:40] if cv else 'unchanged')
+                elif not (len(pushes) == 1 and pushes[0][2] and (pushes[0][2][0] == want or pushes[0][2][0] == ('addr', want))):
+                    ok, why = False, '%s.push_back does not receive the registered address' % arr
                 else:
-                    # map value is the incremented counter, pushed address is the parameter
+                    # the map entry of the name must hold the new counter value
                     mv = o.mem.get(mp)
-                    cv = o.mem.get(cnt)
-                    if not (cv == ('add', (('sym', cnt), terms.num(1)))):
-                        ok, why = False, '%s is not incremented by exactly one' % cnt
-                    pushes = [c for c in E.trace.obj_calls if c[0] == arr and c[1] == 'push_back']
-                    want = ('sym', f.params[1]['n'])
-                    if ok and not (len(pushes) == 1 and pushes[0][2] and (pushes[0][2][0] == want or pushes[0][2][0] == ('addr', want))):
-                        ok, why = False, '%s.push_back does not receive the registered address' % arr
+                    evs = api.flat(o.events)
+                    direct = mv is not None and mv[0] == 'call' and mv[1] == 'elemstore' and mv[2][1] == key and mv[2][2] in (newcnt, cv)
+                    via_insert = False
+                    wrong = None
+                    for e in evs:
+                        if e[0] == 'store' and e[1][0][0] == 'field' and e[1][0][2] == 'second' and mp in terms.fmt(e[1][0]):
+                            if e[1][1] in (newcnt, cv) and terms.fmt(key) in terms.fmt(e[1][0]):
+                                via_insert = True
+                            else:
+                                wrong = 'the map entry is set to `%s`' % terms.fmt(e[1][1])[:40]
+                    if mv is not None and mv[0] == 'call' and mv[1] == 'elemstore' and not direct:
+                        wrong = '%s[%s] is set to `%s`, not the incremented %s' % (mp, terms.fmt(mv[2][1])[:20], terms.fmt(mv[2][2])[:40], cnt)
+                    if wrong:
+                        ok, why = False, wrong
+                    elif not (direct or via_insert):
+                        ok, why = None, 'the map entry is written by an idiom outside the recognised ones: not decided'
             ctx.ob('C11.S2b', '%s|%s' % (fn_name, sc), ok, f.where, '%s: %s' % (fn_name, why), sample='%s: ++%s; %s[name]=%s; %s.push_back(addr)' % (fn_name, cnt, mp, cnt, arr))
 
         # ---- S4 purge / sanity: read off the loop summaries (sa/loops.py)
@@ -176,13 +191,17 @@ def run(ctx, prog):
         E = terms.Evaluator(prog, scalar=scalar, noreturn=('masa_exit',))
         outs = [o for o in E.run(f) if o.kind != 'exit']
         probs = []
+        undecided_purge = False
         if len(outs) != 1:
             probs.append('%d returning paths' % len(outs))
         else:
             tr = loops.traversals(outs[0].events, 'varmap')
             full = [t for t in tr if t[0]]
             if not full:
-                probs.append(tr[0][1] if tr else 'no loop over varmap')
+                if tr:
+                    probs.append(tr[0][1])
+                else:
+                    undecided_purge = True
             for ok_, why_, ev, itn in full[:1]:
                 for kind, conds, evs, dl in loops.body_paths(ev):
                     if kind == 'exit':
@@ -193,20 +212,26 @@ def run(ctx, prog):
                         probs.append('a path through the loop body%s does not store through vararr[it->second] exactly once' % (' (under %s)' % terms.fmt(conds[0])[:50] if conds else ''))
                     elif len(st[0]) < 4 or st[0][3] != ('sym', 'const:MASA_VAR_DEFAULT'):
                         probs.append('the stored value is `%s`, not MASA_VAR_DEFAULT' % (terms.fmt(st[0][3])[:50] if len(st[0]) > 3 else '?'))
-        ctx.ob('C11.S4', 'purge_var|' + sc, not probs, f.where, 'purge_var: ' + '; '.join(probs[:2]), sample='for it in varmap: *vararr[it->second] = MASA_VAR_DEFAULT')
+        ctx.ob('C11.S4', 'purge_var|' + sc, (not probs) if (probs or not undecided_purge) else None, f.where,
+               'purge_var: ' + ('; '.join(probs[:2]) or 'varmap is walked by an idiom outside the recognised ones (no loop in the repository code): not decided'),
+               sample='for it in varmap: *vararr[it->second] = MASA_VAR_DEFAULT')
         f = prog.find_method(B, 'sanity_check')[0]
         E = terms.Evaluator(prog, scalar=scalar, noreturn=('masa_exit',))
         outs = [o for o in E.run(f) if o.kind == 'ret']
         probs = []
         if not outs:
             probs.append('no returning path')
+        undecided_sanity = False
         for o in outs[:1]:
             flags = set()
             for mp, arr in (('varmap', 'vararr'), ('vecmap', 'vecarr')):
                 tr = loops.traversals(o.events, mp)
                 full = [t for t in tr if t[0]]
                 if not full:
-                    probs.append((tr[0][1] if tr else 'no loop over %s' % mp))
+                    if tr:
+                        probs.append(tr[0][1])
+                    else:
+                        undecided_sanity = True
                     continue
                 for kind, conds, evs, dl in loops.body_paths(full[0][2]):
                     if kind == 'exit':
@@ -238,9 +263,9 @@ def run(ctx, prog):
                     elif bool(incs) != test:
                         probs.append('the %s loop %s the counter when the %s' % (mp, 'increments' if incs else 'does not increment',
                                                                                   ('value is the marker' if test else 'value differs from the marker') if mp == 'varmap' else ('vector is empty' if test else 'vector is not empty')))
-            if not probs and len(flags) != 1:
+            if not probs and len(flags) != 1 and not undecided_sanity:
                 probs.append('the two loops count into %s' % (sorted(flags) or 'nothing'))
-            if not probs:
+            if not probs and not undecided_sanity:
                 flag = '@loop:' + sorted(flags)[0]
                 for cs2, r2 in terms.split_ite(o.conds, o.ret):
                     verdict = None
@@ -257,7 +282,9 @@ def run(ctx, prog):
                         probs.append('returns `%s` when the counter is non-zero' % terms.fmt(r2)[:40])
                     elif not verdict and r2 != terms.num(0):
                         probs.append('returns `%s` when the counter is zero' % terms.fmt(r2)[:40])
-        ctx.ob('C11.S4', 'sanity_check|' + sc, not probs, f.where, 'sanity_check: ' + '; '.join(probs[:2]), sample='flag counts marker scalars and empty vectors over both maps; return flag != 0')
+        ctx.ob('C11.S4', 'sanity_check|' + sc, (not probs) if (probs or not undecided_sanity) else None, f.where,
+               'sanity_check: ' + ('; '.join(probs[:2]) or 'the maps are walked by an idiom outside the recognised ones: not decided'),
+               sample='flag counts marker scalars and empty vectors over both maps; return flag != 0')
 
         # ---- S5
         ctor = [f for f in prog.methods_of(B) if f.get('ctor')]
